@@ -19,6 +19,7 @@ pub const FLOORS: &[&str] = &[
     "stack_on", "stack_off", "push_r7_zero", "pop_r7_ffff", "addr_wrap", "br_cc_none",
     "trap_known", "trap_unknown", "exit_0xee", "exit_1_stack_off", "input_eof", "through_run_loop", "through_run_loop:run_ended",
     "coincide:jsrr_r7", "coincide:push_r7", "coincide:pop_r7", "coincide:ldr_same",
+    "sequence:push_store_pop", "sequence:call_store_rets", "sequence:st_ld_same_address", "sequence:completed",
     "debugger:step_into_compared", "debugger:step_after_goto", "debugger:step_after_word_under_pc_replaced", "debugger:step_after_reset",
 ];
 
@@ -299,6 +300,16 @@ pub fn run(cfg: &Cfg, col: &mut Collector) {
         let n = cfg.n(500, 30_000, 3);
         crate::util::run_cases(n, only.map(|o| o - DBG_BASE), cfg.threads, col, move |i| debugger_case(seed, i));
         col.extra.push(("debugger_sessions".into(), J::I(n as i64)));
+        if only.is_some() {
+            return;
+        }
+    }
+    // short sequences with stores between dependent instructions: what an instruction does depends on the
+    // machine state alone, not on what was executed before (ids from SEQ_BASE up)
+    if only.map_or(true, |o| o >= SEQ_BASE && o < DBG_BASE) {
+        let n = cfg.n(6_000, 400_000, 40);
+        crate::util::run_cases(n, only.map(|o| o - SEQ_BASE), cfg.threads, col, move |i| sequence_case(seed, i));
+        col.extra.push(("instruction_sequences".into(), J::I(n as i64)));
         if only.is_some() {
             return;
         }
@@ -1090,5 +1101,178 @@ fn debugger_case(seed: u64, i: u64) -> CaseOut {
         }
     }
     out.nontrivial = Some(crate::util::hash_bytes(format!("{}|{}", text, script).as_bytes()));
+    out
+}
+
+
+// ---------------------------------------------------------------------------------------------
+// Sequences. The single-instruction workload sets the whole visible state before every instruction,
+// so anything an implementation remembers *besides* registers, PC, CC and memory never matters
+// there. Here two to six instructions run back to back on one machine, built so that a later one
+// depends on a location an earlier one used and something else wrote in between (push / store to
+// the slot / pop; call / store / rets; store / load of the same address by different addressing
+// modes). After every instruction the whole visible state is compared.
+
+pub const SEQ_BASE: u64 = 1 << 39;
+
+fn sequence_case(seed: u64, i: u64) -> CaseOut {
+    let mut out = CaseOut::new();
+    let id = SEQ_BASE + i;
+    let mut rng = Rng::for_case(seed, "C02seq", i);
+    let stack_on = rng.chance(2, 3);
+    init_features(stack_on);
+    lace::set_minimal(true);
+    let Ok(mut env) = load_raw(&[0x0000]) else {
+        out.inconclusive = Some("cannot create machine".into());
+        return out;
+    };
+    let mut reference = RefVm::load(&[0x0000], stack_on).unwrap();
+    // state
+    let mut reg = [0u16; 8];
+    for r in reg.iter_mut() {
+        *r = match rng.below(4) {
+            0 => 0x4000 + rng.below(0x8000) as u16,
+            1 => rng.below(16) as u16,
+            _ => rng.u16(),
+        };
+    }
+    reg[7] = 0x4000 + rng.below(0xB000) as u16;
+    let pc0: u16 = 0x3000 + rng.below(0x8000) as u16;
+    let cc = *rng.pick(&[0u8, 1, 2, 4]);
+    // a little memory around the places the sequence will touch
+    let mut writes: Vec<(u16, u16)> = Vec::new();
+    for k in 0..8u16 {
+        writes.push((reg[7].wrapping_sub(4).wrapping_add(k), rng.u16()));
+        writes.push((pc0.wrapping_add(k * 3), rng.u16()));
+    }
+    {
+        let mem = env.verif_mem_mut();
+        for &(a, v) in &writes {
+            mem[a as usize] = v;
+            reference.mem[a as usize] = v;
+        }
+    }
+    let r = |rng: &mut Rng| rng.below(7) as u16; // not R7 unless said so
+    let any = |rng: &mut Rng| rng.below(8) as u16;
+    let push = |s: u16| 0xD400 | (s << 6);
+    let pop = |d: u16| 0xD000 | (d << 6);
+    let str_ = |s: u16, b: u16, k: i16| 0x7000 | (s << 9) | (b << 6) | (k as u16 & 0x3F);
+    let ldr = |d: u16, b: u16, k: i16| 0x6000 | (d << 9) | (b << 6) | (k as u16 & 0x3F);
+    let addi = |d: u16, s: u16, k: i16| 0x1020 | (d << 9) | (s << 6) | (k as u16 & 0x1F);
+    let family = if stack_on { rng.below(9) } else { 4 + rng.below(5) };
+    let mut words: Vec<u16> = Vec::new();
+    let name = match family {
+        0 => {
+            words = vec![push(any(&mut rng)), str_(any(&mut rng), 7, rng.range(-1, 1) as i16), pop(any(&mut rng))];
+            "push_store_pop"
+        }
+        1 => {
+            // CALL +off, store over the saved return address, RETS
+            words = vec![0xDC00 | (rng.below(0x200) as u16), str_(r(&mut rng), 7, 0), 0xD800];
+            "call_store_rets"
+        }
+        2 => {
+            words = vec![push(any(&mut rng)), addi(7, 7, 1), addi(7, 7, -1), str_(r(&mut rng), 7, 0), pop(any(&mut rng))];
+            "push_move_r7_store_pop"
+        }
+        3 => {
+            words = vec![push(any(&mut rng)), push(any(&mut rng)), pop(any(&mut rng)), str_(r(&mut rng), 7, 0), pop(any(&mut rng)), push(any(&mut rng)), pop(any(&mut rng))];
+            "push_push_pop_store_pop"
+        }
+        4 => {
+            // ST and LD of one address from consecutive instructions (offsets differ by one), twice
+            let o = rng.range(-200, 200) as i16;
+            words = vec![
+                0x3000 | (r(&mut rng) << 9) | (o as u16 & 0x1FF),
+                0x2000 | (r(&mut rng) << 9) | ((o - 1) as u16 & 0x1FF),
+                0x3000 | (r(&mut rng) << 9) | ((o - 2) as u16 & 0x1FF),
+                0x2000 | (r(&mut rng) << 9) | ((o - 3) as u16 & 0x1FF),
+            ];
+            "st_ld_same_address"
+        }
+        5 => {
+            let (b, k) = (r(&mut rng), rng.range(-32, 31) as i16);
+            words = vec![str_(any(&mut rng), b, k), ldr(r(&mut rng), b, k), str_(any(&mut rng), b, k), ldr(r(&mut rng), b, k)];
+            "str_ldr_same_address"
+        }
+        6 => {
+            // STI / LDI through one pointer word, with the pointer itself rewritten in between
+            let o = rng.range(-100, 100) as i16;
+            words = vec![
+                0xB000 | (r(&mut rng) << 9) | (o as u16 & 0x1FF),
+                0xA000 | (r(&mut rng) << 9) | ((o - 1) as u16 & 0x1FF),
+                0x3000 | (r(&mut rng) << 9) | ((o - 2) as u16 & 0x1FF),
+                0xA000 | (r(&mut rng) << 9) | ((o - 3) as u16 & 0x1FF),
+            ];
+            "sti_ldi_same_pointer"
+        }
+        7 => {
+            // JSR, R7 nudged, RET
+            words = vec![0x4800 | (rng.below(0x400) as u16), addi(7, 7, rng.range(-3, 3) as i16), 0xC1C0];
+            "jsr_adjust_ret"
+        }
+        _ => {
+            for _ in 0..3 + rng.below(4) {
+                words.push(plain_word(&mut rng, stack_on));
+            }
+            "random_plain_words"
+        }
+    };
+    out.class(format!("sequence:{}", name));
+    env.verif_set(reg, pc0.wrapping_add(1), cc);
+    reference.reg = reg;
+    reference.pc = pc0.wrapping_add(1);
+    reference.cc = cc;
+    out.evals = 0;
+    for (k, &w) in words.iter().enumerate() {
+        reference.variant = 0;
+        reference.touched = 0;
+        let step = reference.exec(w);
+        if !matches!(step, Step::Next) || reference.touched != 0 {
+            out.class("sequence:cut_short_by_an_open_point_or_exit");
+            break;
+        }
+        verif::install(Monitor { armed: true, ..Default::default() });
+        let end = guard(|| env.verif_execute(w));
+        let _ = verif::take();
+        let v = env.verif_view();
+        let why = if let Err(a) = &end {
+            Some(a.short())
+        } else if *v.reg != reference.reg {
+            Some(format!("registers {:04X?}, reference {:04X?}", v.reg, reference.reg))
+        } else if v.pc != reference.pc {
+            Some(format!("PC x{:04X}, reference x{:04X}", v.pc, reference.pc))
+        } else if v.cc != reference.cc {
+            Some(format!("CC {:03b}, reference {:03b}", v.cc, reference.cc))
+        } else if v.mem[..] != reference.mem[..] {
+            let a = (0..0x10000).find(|&a| v.mem[a] != reference.mem[a]).unwrap();
+            Some(format!("mem[x{:04X}] = x{:04X}, reference x{:04X}", a, v.mem[a], reference.mem[a]))
+        } else {
+            None
+        };
+        if let Some(why) = why {
+            out.violate(
+                format!("C02/{}/in-sequence", opname(w)),
+                id,
+                format!("instruction {} of the sequence {:04X?} (family {}): {}", k + 1, words, name, why),
+                J::obj(vec![
+                    ("words", J::words(&words)),
+                    ("registers_before_the_sequence", J::words(&reg)),
+                    ("pc_of_first_instruction", J::s(format!("x{:04X}", pc0))),
+                    ("stack_feature", J::B(stack_on)),
+                ]),
+            );
+            return out;
+        }
+        out.evals += 1;
+        // next instruction: the PC as the loop would leave it
+        let (regs_now, pc_now, cc_now) = (*v.reg, v.pc, v.cc);
+        env.verif_set(regs_now, pc_now.wrapping_add(1), cc_now);
+        reference.pc = reference.pc.wrapping_add(1);
+    }
+    if out.evals as usize == words.len() {
+        out.class("sequence:completed");
+    }
+    out.nontrivial = Some(crate::util::hash_bytes(format!("{:?}{:?}{}", words, reg, pc0).as_bytes()));
     out
 }
